@@ -86,6 +86,46 @@ def run(ctx):
             ctx.cov["oracle_cases"] += 1
             if not close_enough(v, ref, rel=1e-9):
                 viol(ctx, f"compose:{order}", f"({order})({y}) = {v}; sum over x of grammar(x) * transducer(x, y) = {ref}", {"kind": "compose", "grammar": g, "t": t, "order": order, "ys": y, "observed": str(v), "expected": str(ref)})
+    # ---- chained operations on a composed grammar: truncation, and a second composition
+    jobs, cplan = [], []
+    for (gi, g, t, order) in plan[: (20 if quick else 200)]:
+        lang = {tuple(x): tab.get(gi, x) for x in X}
+        if any(v is None for v in lang.values()) or any(v != 0 for x, v in lang.items() if len(x) == 4):
+            continue
+        t2 = None
+        while t2 is None or not no_input_eps_cycle(t2):
+            t2 = F.rand_fst(ctx.rng, n=ctx.rng.randint(1, 3), nA=2, nB=2, narcs=ctx.rng.randint(1, 5), peps=0.4)
+        jobs.append({"queries": [{"op": "cfg_compose", "g": g, "t": t, "ys": ys, "then": ["truncate", 1], "timeout": 40},
+                                 {"op": "cfg_compose", "g": g, "t": t, "ys": ys, "then": ["fst", t2], "timeout": 60}]})
+        cplan.append((gi, g, t, t2, lang))
+    res2 = run_w(jobs)
+    for (gi, g, t, t2, lang), r in zip(cplan, res2):
+        bound = F.max_out_len(t, 3)
+        if bound is None or bound > 6:
+            bound = 6
+        Ys = strs(2, bound)
+        h = {tuple(y): sum((gx * F.fst_oracle(t, list(x), y) for x, gx in lang.items() if gx != 0), Fraction(0)) for y in Ys}
+        exact2 = F.max_out_len(t, 3) is not None and F.max_out_len(t, 3) <= 6
+        q = r[0]
+        if "err" in q:
+            viol(ctx, f"compose-then-truncate:error:{q['err'][:30]}", f"(cfg @ fst).truncate_length(1) raised {q['err']}", {"kind": "compose-error", "grammar": g, "t": t, "what": "then-truncate", "error": q["err"]})
+        else:
+            for y, enc in zip(ys, q["ok"]):
+                want = h[tuple(y)] if len(y) <= 1 else Fraction(0)
+                ctx.count_case((gi, "then-truncate", tuple(y)), nontrivial=want != 0)
+                if not close_enough(dec_val(enc), want, rel=1e-9):
+                    viol(ctx, "compose-then-truncate", f"(cfg @ fst).truncate_length(1)({y}) = {dec_val(enc)}, expected {want}", {"kind": "compose", "what": "then-truncate", "grammar": g, "t": t, "ys": y, "observed": str(dec_val(enc)), "expected": str(want)})
+        q = r[1]
+        if "err" in q:
+            if "timeout" not in q["err"]:
+                viol(ctx, f"compose-twice:error:{q['err'][:30]}", f"(cfg @ fst) @ fst2 raised {q['err']}", {"kind": "compose-error", "grammar": g, "t": t, "t2": t2, "what": "twice", "error": q["err"]})
+        elif exact2:
+            for z, enc in zip(ys, q["ok"]):
+                want = sum((hv * F.fst_oracle(t2, list(y), z) for y, hv in h.items() if hv != 0), Fraction(0))
+                ctx.count_case((gi, "twice", tuple(z)), nontrivial=want != 0)
+                ctx.cov["oracle_cases"] += 1
+                if not close_enough(dec_val(enc), want, rel=1e-9):
+                    viol(ctx, "compose-twice", f"((cfg @ fst) @ fst2)({z}) = {dec_val(enc)}; relational composition gives {want}", {"kind": "compose", "what": "twice", "grammar": g, "t": t, "t2": t2, "ys": z, "observed": str(dec_val(enc)), "expected": str(want)})
     # ---- composition with a plain string; length truncation
     jobs = [{"g": g, "sr": "frac", "queries": [{"op": "compose_string_treesum", "xs": X[:15]}] + [{"op": "truncate_call", "n": k, "xs": X[:15]} for k in (0, 1, 2)]} for g in gs]
     res = run_jobs(jobs)
